@@ -29,7 +29,8 @@ IsHoogh(v) == v \in {"hoogh_ni", "hoogh_i", "hoogh_hv"}
 IsInter(v) == v \in {"groth_i", "hoogh_i", "groth_hv", "hoogh_hv"}
 IsHV(v) == v \in {"groth_hv", "hoogh_hv"}
 Sizes == IF Tier = "quick" THEN {2, 3, 5} ELSE 2..8
-FalseStmts(v) == IF IsHoogh(v) THEN {"subst", "dup", "retype", "noncyclic"} ELSE {"subst", "dup", "retype"}
+\* c1only / c2only: one component of one output ciphertext multiplied by g (prover and verifier see the same stacks)
+FalseStmts(v) == IF IsHoogh(v) THEN {"subst", "dup", "retype", "noncyclic", "c1only", "c2only"} ELSE {"subst", "dup", "retype", "c1only", "c2only"}
 Muts == {"plus1", "otherres", "zero", "one", "plusq", "p", "pm1", "oversized", "trunc", "swap"}
 \* "h": the verifier's argument instance has another ElGamal key than the cards; "hprover": prover and argument instance
 \* consistently use another key than the verifier's card scheme (only the comparison of the two keys can refuse this)
